@@ -123,6 +123,26 @@ fn with_parameters(input: &Tree) -> Result<Tree, String> {
     })
 }
 
+/// with_parameters_eval: [parametric instance, [[id, value]..], state over the decision variables]
+///   -> [ok instance | err, evaluation of that instance at the state (no parameter id may be left in it)]
+fn with_parameters_eval(input: &Tree) -> Result<Tree, String> {
+    let xs = input.as_list()?;
+    let p = d_parametric(&xs[0])?;
+    let mut ps = ommx::v1::Parameters::default();
+    ps.entries = d_entries(&xs[1])?;
+    let st = d_state(&xs[2])?;
+    Ok(match p.with_parameters(ps) {
+        Ok(i) => {
+            let ev = match i.evaluate(&st) {
+                Ok((sol, _)) => ok(e_solution(&sol)),
+                Err(e) => anyerr("evaluate", &e),
+            };
+            L(vec![ok(e_instance(&i)), ev])
+        }
+        Err(e) => L(vec![anyerr("with_parameters", &e), L(vec![])]),
+    })
+}
+
 /// of_instance_roundtrip: instance -> with_parameters(ParametricInstance::from(instance), {})
 fn of_instance_roundtrip(input: &Tree) -> Result<Tree, String> {
     let ins = d_instance(input)?;
@@ -172,6 +192,7 @@ pub fn dispatch(op: &str, input: &Tree) -> Option<Result<Tree, String>> {
         "penalty" => Some(penalty(input, false)),
         "uniform_penalty" => Some(penalty(input, true)),
         "with_parameters" => Some(with_parameters(input)),
+        "with_parameters_eval" => Some(with_parameters_eval(input)),
         "of_instance_roundtrip" => Some(of_instance_roundtrip(input)),
         "as_pubo" => Some(pubo(input)),
         "as_qubo" => Some(qubo(input)),
